@@ -23,6 +23,7 @@ func TestSeqToSeq(t *testing.T) {
 	fo, _ := os.Create(outp)
 	defer fo.Close()
 	sc := bufio.NewScanner(fi)
+	sc.Buffer(make([]byte, 1<<20), 1<<20)
 	for sc.Scan() {
 		xs := []int{}
 		for _, w := range strings.Fields(sc.Text()) {
@@ -31,6 +32,10 @@ func TestSeqToSeq(t *testing.T) {
 		}
 		ch := pipe.Seq(xs...)
 		c, l := cap(ch), len(ch)
+		// the caller reuses its slice as soon as Seq has returned: the sequence must already be in the channel
+		for i := range xs {
+			xs[i] = -777
+		}
 		got := pipe.ToSeq(ch)
 		_, ok := <-ch
 		s := make([]string, len(got))
